@@ -1565,15 +1565,16 @@ impl<'a> Runtime<'a> {
             return Value::Str(ArenaCow::Owned(result));
         }
 
-        if matches!(val, Value::Array(_)) {
-            // Arrays promoted to persistent via pool.
+        if matches!(val, Value::Array(_) | Value::Host(_)) {
+            // Arrays and host handles are cloned onto the frame by every variable read,
+            // so they are promoted to persistent before the frame goes away.
             let promoted = val.promote(&self.pool, self.frame);
             unsafe { self.frame.reset(frame_offset) };
             return promoted;
         }
 
-        // Numbers, bools, null, borrowed strings, persistent-owned strings
-        // all survive frame reset without staging.
+        // Numbers, bools, null, detached borrowed strings and persistent-owned
+        // strings all survive frame reset without staging.
         unsafe { self.frame.reset(frame_offset) };
         val
     }
